@@ -58,7 +58,8 @@ def i32 (site : String) (x : Int) : Out Int := if -(2 : Int) ^ 31 ≤ x ∧ x < 
 
 /-! ## `AddressType::from_slice` and `Address::from_bytes` (src/util/address.rs) -/
 
-/-- `AddressType::from_slice` with `bytes[0]` and `&bytes[65..73]` explicit (bounds from the regenerated table) -/
+/-- `AddressType::from_slice` with `bytes[0]`, `&bytes[65..73]` and the length assertion of `PaymentId::from_slice` explicit
+(bounds from the regenerated table) -/
 def addrTypeOfP (net : Net) (bytes : Bytes) : Out (Kind × Bytes) :=
   if bytes.isEmpty then .err else
   (idx "AddressType::from_slice: bytes[0]" bytes 0).bind fun b =>
@@ -66,7 +67,10 @@ def addrTypeOfP (net : Net) (bytes : Bytes) : Out (Kind × Bytes) :=
   | none => .err
   | some (k, minLen, lo, hi) =>
     if bytes.length < minLen then .err
-    else (slice "AddressType::from_slice: &bytes[65..73]" bytes lo hi).bind fun pid => .ok (k, pid)
+    else (slice "AddressType::from_slice: &bytes[65..73]" bytes lo hi).bind fun pid =>
+      -- `PaymentId::from_slice(&bytes[65..73])` in the Integrated arms: fixed-hash `assert_eq!(src.len(), 8)` — the LENGTH of the
+      -- regenerated range is a panic site of its own (`&bytes[65..72]` is a legal slice and a panicking payment id)
+      if k = .Integrated ∧ pid.length ≠ 8 then .panic "PaymentId::from_slice: assert_eq!(src.len(), 8)" else .ok (k, pid)
 
 /-- `Address::from_bytes` with its eight index / slice expressions explicit; `H` = `keccak_256` (a 32-byte array in the
 library; the theorem asks for at least 4 bytes) -/
@@ -194,5 +198,104 @@ def mixinP (ins : List TxIn) : Out Nat :=
     | none => .panic "Transaction::consensus_decode: &prefix.inputs[0]"
     | some (.toKey _ o _) => if o.length = 0 then .err else .ok (o.length - 1)   -- checked_sub(1)
     | some _ => .ok 0
+
+/-! ## `RctSigPrunable::consensus_decode` (ringct.rs:712-807) and `Transaction::consensus_decode`
+(transaction.rs:995-1077): `1 + inputs` on a `usize`, `&prefix.inputs[0]`
+
+The decoders of Model/Tx.lean compute over `Nat`, where `1 + inputs` is total. In the Rust, `inputs` is a `usize`
+PARAMETER of the public function `RctSigPrunable::consensus_decode`; the sum is evaluated inside
+`for _ in 0..mg_elements { for _ in 0..=mixin {` — for the types that are neither CLSAG-like (5, 6) nor simple (2, 3, 4)
+`mg_elements = 1` and `0..=mixin` is never empty, so it is evaluated (before any byte of the section is read) exactly
+for those types. `Transaction::consensus_decode` calls it with `inputs = prefix.inputs.len()`, the length of a vector
+that passed the allocation cap. -/
+
+/-- `Option` result as an outcome without panic -/
+def Out.ofOption {α} : Option α → Out α
+  | some x => .ok x
+  | none => .err
+
+/-- section 2 (ring signatures) with `1 + inputs` explicit -/
+def sigsDecP (ty inputs mixin : Nat) (b : Bytes) : Out ((List MG × List Clsag) × Bytes) :=
+  if ty = 5 ∨ ty = 6 then .ofOption (sigsDec ty inputs mixin b)
+  else if ty = 2 ∨ ty = 3 ∨ ty = 4 then .ofOption (sigsDec ty inputs mixin b)
+  else
+    (addU 64 "RctSigPrunable::consensus_decode: 1 + inputs" 1 inputs).bind fun cols =>
+    .ofOption ((bind (rep (mgDec cols mixin) 1) fun ms => pure' (ms, ([] : List Clsag))) b)
+
+/-- `RctSigPrunable::consensus_decode(r, rct_type, inputs, outputs, mixin)`: every argument is the caller's -/
+def prunableP (ty inputs outputs mixin : Nat) (b : Bytes) : Out (Option Prunable × Bytes) :=
+  if ty = 0 then .ok (none, b) else
+  (Out.ofOption (proofsDec ty outputs b)).bind fun (pf, r1) =>
+  (sigsDecP ty inputs mixin r1).bind fun (sg, r2) =>
+  (Out.ofOption (pseudoDec ty inputs r2)).bind fun (po, r3) =>
+  .ok (some ⟨pf.1, pf.2.1, pf.2.2, sg.1, sg.2, po⟩, r3)
+
+/-- the expression `match &prefix.inputs[0] { ToKey{key_offsets,..} => key_offsets.len().checked_sub(1) …, _ => 0 }`
+ALONE, without the guards that precede it in the source: it panics on an empty input list -/
+def mixinAtP (ins : List TxIn) : Out Nat :=
+  match (ins[0]? : Option TxIn) with
+  | none => .panic "Transaction::consensus_decode: &prefix.inputs[0]"
+  | some (.toKey _ o _) => if o.length = 0 then .err else .ok (o.length - 1)   -- checked_sub(1)
+  | some _ => .ok 0
+
+/-- `Transaction::consensus_decode` with its own control flow written out (the `inputs == 0` early return, the
+`if inputs > 0 { … } else { 0 }` around the index expression) and the panic sites of what it calls -/
+def txP (b : Bytes) : Out (Tx × Bytes) :=
+  (Out.ofOption (prefix' b)).bind fun (p, r0) =>
+  let inputs := p.ins.length
+  let outputs := p.outs.length
+  if p.version = 1 then
+    let rings := p.ins.filterMap fun i => match i with | .toKey _ o _ => some o.length | _ => none
+    .ofOption ((bind (tx.sigs rings) fun s => pure' (⟨p, s, none, none⟩ : Tx)) r0)
+  else if inputs = 0 then .ok (⟨p, [], none, none⟩, r0)
+  else
+    (Out.ofOption (base inputs outputs r0)).bind fun (bs, r1) =>
+    if bs.ty ≠ 0 then
+      (if inputs > 0 then mixinAtP p.ins else .ok 0).bind fun mixin =>
+      (prunableP bs.ty inputs outputs mixin r1).bind fun (pr, r2) => .ok (⟨p, [], some bs, pr⟩, r2)
+    else .ok (⟨p, [], some bs, none⟩, r1)
+
+/-! ## formatting and signed parsing of amounts (src/util/amount.rs): `fmt_piconero_in` (`real.len() - nb_decimals` on
+`usize`, three `str` slices of the zero-padded numeral), `SignedAmount::fmt_value_in` (`u64::MAX - x + 1` for `i64::MIN`),
+`SignedAmount::from_str_in` (`-(piconero as i64)`) -/
+
+/-- checked-profile `i64` negation: panics for `i64::MIN` only -/
+def negI64 (site : String) (x : Int) : Out Int := if x = -(2 : Int) ^ 63 then .panic site else .ok (-x)
+
+/-- `fmt_piconero_in` (amount.rs:195-229). `precision as usize` (a cast: wraps, never panics) is taken in the `Greater`
+arm only, where the value is positive. -/
+def fmtPiconeroInP (piconero : Nat) (negative : Bool) (d : Denom) : Out Bytes :=
+  let sign : Bytes := if negative then [0x2d] else []
+  let precision := precisionOf d
+  if precision > 0 then
+    .ok (sign ++ digits piconero ++ padZero precision.toNat (digits 0))
+  else if precision < 0 then
+    let nb := precision.natAbs
+    let real := padZero nb (digits piconero)
+    if real.length = nb then
+      (subU "fmt_piconero_in: real.len() - nb_decimals" real.length nb).bind fun k =>
+      (strSlice "fmt_piconero_in: &real[real.len() - nb_decimals..]" real k real.length).bind fun frac =>
+      .ok (sign ++ [0x30, 0x2e] ++ frac)
+    else
+      (subU "fmt_piconero_in: real.len() - nb_decimals" real.length nb).bind fun k =>
+      (strSlice "fmt_piconero_in: &real[0..(real.len() - nb_decimals)]" real 0 k).bind fun ip =>
+      (strSlice "fmt_piconero_in: &real[real.len() - nb_decimals..]" real k real.length).bind fun frac =>
+      .ok (sign ++ ip ++ [0x2e] ++ frac)
+  else .ok (sign ++ digits piconero)
+
+/-- `SignedAmount::fmt_value_in` / `to_string_in` (`a` is an `i64`): `checked_abs()` is `None` exactly for `i64::MIN`,
+then `u64::max_value() - self.as_pico() as u64 + 1` on `u64` -/
+def signedToStringInP (a : Int) (d : Denom) : Out Bytes :=
+  (if a = -(2 ^ 63 : Int) then
+     (subU "SignedAmount::fmt_value_in: u64::MAX - (x as u64)" U64MAX (a % (2 ^ 64 : Int)).toNat).bind fun t =>
+     addU 64 "SignedAmount::fmt_value_in: (u64::MAX - x) + 1" t 1
+   else .ok a.natAbs).bind fun picos =>
+  fmtPiconeroInP picos (decide (a < 0)) d
+
+/-- `SignedAmount::from_str_in`: the negation of `piconero as i64` comes after the `> i64::MAX` test -/
+def signedFromStrInP (s : Bytes) (d : Denom) : Out Int :=
+  (parseSignedToPiconeroP s d).bind fun (neg, q) =>
+  if q > I64MAX then .err
+  else if neg then negI64 "SignedAmount::from_str_in: -(piconero as i64)" (q : Int) else .ok (q : Int)
 
 end Monero.Panics
